@@ -14,8 +14,10 @@ TRUSTED = ["networkx copy / remove_node / neighbors taken at face value",
 ASSUMPTIONS = ["default edge-type names", "acyclic directed layer (domain of C01)", "I inside R inside V-{x,y} (quantifier of C11)"]
 LEVEL_TEXT = ("Coq theorems about the executable model minsep_model / is_minsep_model (transcription of the code with the repairs of "
               "fix proposals C11-02, C11-03 built in, on top of the C01 model msep_model and the C12 model of the moral graph), all "
-              "closed under the global context. UNBOUNDED (all graphs): minsep_sound_partial (a returned Z has I <= Z <= R, avoids "
-              "x and y and passed msep_model on the anterior graph given the whole Z) and is_minsep_sound_partial. BOUNDED by kernel "
+              "closed under the global context. UNBOUNDED (all graphs of the C01 domain, all sizes): minsep_sound (a returned Z has "
+              "I <= Z <= R and m-separates x and y in g itself, Prop msep by m-connecting paths) and is_minsep_sound (same for an "
+              "accepted Z), via C01's msep_correct and the anterior-restriction lemma anterior_restrict (path level, proved here); "
+              "plus the structural minsep_sound_partial / is_minsep_sound_partial without graph-class hypotheses. BOUNDED by kernel "
               "computation against the path definition of m-separation (msep, via the proved oracle msep_dec, subsets by sublists): "
               "None <-> no separator between I and R; Some Z -> Z separates and no proper subset containing I does; is_minsep_model = 1 "
               "exactly for those Z -- for ALL graphs of the C01 domain on <= 3 nodes, all x<>y, all I <= R <= V-{x,y}, all Z "
@@ -27,7 +29,7 @@ LEVEL_TEXT = ("Coq theorems about the executable model minsep_model / is_minsep_
 LEVEL_NOTE = ("on unchanged /repo the check reports VIOLATIONs (three genuine defects, fix proposals fixes/C11-01..03, to be applied in "
               "order); with them quick and thorough tiers are green. is_minimal_m_separator raising NetworkXError for a call with "
               "I not inside Z or Z not inside R is accepted as 'not True'.")
-TECHNIQUE = ("Coq proof (structural soundness, unbounded) + bounded kernel computation over a verified finite enumeration with "
+TECHNIQUE = ("Coq proof (soundness for all sizes: C01 theorem + anterior-restriction lemma by path induction) + bounded kernel computation over a verified finite enumeration with "
              "brute-force subset enumeration (n<=3; DAGs n=4) + refutation lemmas for the old behaviour + extracted-model "
              "correspondence judged by the brute-force oracle")
 LABS = ["str", "tuple", "char", "frozenset", "bigint"]
